@@ -164,6 +164,14 @@ equation_re = re.compile(
 
 KEYWORD_LIST = '|'.join(keyword.kwlist)
 
+# Names that model instances set up for themselves at initialisation, either as
+# variables (solution tracking) or attributes: not available as variable names
+RESERVED_NAMES = (
+    'status', 'iterations',
+    'lags', 'leads', 'endogenous', 'check', 'engine',
+    'attributes',  # Stored as `_attributes`: the instance's own list of attributes
+)  # fmt: skip
+
 term_re = re.compile(
     # Match verbatim code enclosed in backticks
     r'(?: (?P<_VERBATIM> [`] (.+?) [`]) )|'
@@ -797,18 +805,20 @@ def parse_model(model: str, *, check_syntax: bool = True) -> List[Symbol]:
             symbols[name] = symbols.get(name, symbol).combine(symbol)
 
     # Error if any variables take names that model instances reserve for
-    # solution tracking (classes with such variables cannot be instantiated)
+    # solution tracking and their own attributes (classes with such variables
+    # cannot be instantiated)
     reserved_names = [
         s.name
         for s in symbols.values()
-        if s.name in ('status', 'iterations')
+        if s.name in RESERVED_NAMES
         and s.type in (Type.VARIABLE, Type.EXOGENOUS, Type.ENDOGENOUS, Type.PARAMETER, Type.ERROR)
     ]  # fmt: skip
 
     if reserved_names:
         raise SymbolError(
-            'The following name(s) are reserved for solution tracking '
-            'and cannot be used for model variables: ' + ', '.join(reserved_names)
+            'The following name(s) are reserved for solution tracking and '
+            'model attributes, and cannot be used for model variables: '
+            + ', '.join(reserved_names)
         )
 
     return list(symbols.values()) + verbatim
